@@ -552,9 +552,15 @@ def do_step(k, plan, fs, ctx, rnd, sfp):
     desc = "file #%d at %s of %d bytes (%s%s), read plan %s" % (k + 1, fs.show(PATHK), len(durable), c or "layout as generated", ", torn at %s" % plan.get("torn_at") if plan.get("torn_at") is not None else "", cjson(fault))
     if err is None:
         got = residues_of(api, val)
-        if verdict == "reject" or fault.get("open"):
-            raise Violation("bad_file_accepted", "accepted:" + (("open_" + str(fault.get("open"))) if fault.get("open") else val_reason(durable)),
-                            "%s: %s returned %r but the file must be rejected (%s)" % (desc, api, got[:60], ref_parse(durable)[1] if not fault.get("open") else fault.get("open")))
+        # an open error counts only if it really happened: ENOENT / EISDIR are real conditions of the scratch
+        # disk, the simulated EACCES exists only behind the seam (a reader that opens the file some other way
+        # never meets it and is then judged as fault-free)
+        open_failed = fault.get("open") in ("ENOENT", "EISDIR") or (fault.get("open") == "EACCES" and fired)
+        if fault.get("open") == "EACCES" and not fired:
+            ctx.probe("open_fault_bypassed_by_reader")
+        if verdict == "reject" or open_failed:
+            raise Violation("bad_file_accepted", "accepted:" + (("open_" + str(fault.get("open"))) if open_failed else val_reason(durable)),
+                            "%s: %s returned %r but the file must be rejected (%s)" % (desc, api, got[:60], ref_parse(durable)[1] if not open_failed else fault.get("open")))
         if got != ref_parse(durable)[1]:
             w = ref_parse(durable)[1]
             raise Violation("wrong_residues", "wrong_residues" + (":after_io_error" if fired else ""),
